@@ -11,7 +11,12 @@ use std::io::Cursor;
 use std::path::{Path, PathBuf};
 use std::sync::Arc;
 
-use cas_client::{CacheConfig, FileProvider, OutputProvider};
+use async_trait::async_trait;
+use cas_client::{CacheConfig, CasClientError, Client, FileProvider, LocalClient, OutputProvider, ReconstructionClient, ShardClientInterface, UploadClient, VerifRegistrationClient, VerifShardDedupProber};
+use cas_types::FileRange;
+use mdb_shard::file_structs::MDBFileInfo;
+use mdb_shard::shard_file_reconstructor::FileReconstructor;
+use utils::progress::ProgressUpdater;
 use cas_object::CasObject;
 use data::configurations::*;
 use data::{FileDownloader, FileUploadSession, PointerFile};
@@ -22,6 +27,55 @@ use sha2::{Digest, Sha256};
 use xet_threadpool::ThreadPool;
 
 use crate::util::Lines;
+
+// The store as the session sees it: the real LocalClient behind a wrapper that only records what every put call was
+// handed and what it reported as transmitted (C14: "upload bytes equal what was actually handed to the store" must be
+// judged per call -- two racing puts of the same xorb both hand their bytes over, the directory keeps one file).
+pub struct Counting {
+    inner: Arc<LocalClient>,
+    pub puts: std::sync::Mutex<Vec<(MerkleHash, usize, usize)>>, // (xorb, bytes handed, bytes reported)
+}
+
+#[async_trait]
+impl UploadClient for Counting {
+    async fn put(&self, prefix: &str, hash: &MerkleHash, data: Vec<u8>, cb: Vec<(MerkleHash, u32)>) -> Result<usize, CasClientError> {
+        let handed = data.len();
+        let r = self.inner.put(prefix, hash, data, cb).await;
+        if let Ok(n) = &r {
+            self.puts.lock().unwrap().push((*hash, handed, *n));
+        }
+        r
+    }
+    async fn exists(&self, prefix: &str, hash: &MerkleHash) -> Result<bool, CasClientError> {
+        self.inner.exists(prefix, hash).await
+    }
+}
+#[async_trait]
+impl ReconstructionClient for Counting {
+    async fn get_file(&self, hash: &MerkleHash, byte_range: Option<FileRange>, out: &OutputProvider, p: Option<Arc<dyn ProgressUpdater>>) -> Result<u64, CasClientError> {
+        self.inner.get_file(hash, byte_range, out, p).await
+    }
+}
+#[async_trait]
+impl VerifRegistrationClient for Counting {
+    async fn upload_shard(&self, prefix: &str, hash: &MerkleHash, force_sync: bool, shard_data: &[u8], salt: &[u8; 32]) -> Result<bool, CasClientError> {
+        VerifRegistrationClient::upload_shard(&*self.inner, prefix, hash, force_sync, shard_data, salt).await
+    }
+}
+#[async_trait]
+impl FileReconstructor<CasClientError> for Counting {
+    async fn get_file_reconstruction_info(&self, h: &MerkleHash) -> Result<Option<(MDBFileInfo, Option<MerkleHash>)>, CasClientError> {
+        self.inner.get_file_reconstruction_info(h).await
+    }
+}
+#[async_trait]
+impl VerifShardDedupProber for Counting {
+    async fn query_for_global_dedup_shard(&self, prefix: &str, chunk_hash: &MerkleHash, salt: &[u8; 32]) -> Result<Option<PathBuf>, CasClientError> {
+        VerifShardDedupProber::query_for_global_dedup_shard(&*self.inner, prefix, chunk_hash, salt).await
+    }
+}
+impl ShardClientInterface for Counting {}
+impl Client for Counting {}
 
 pub fn block_bytes(id: u64, len: usize) -> Vec<u8> {
     let mut out = Vec::with_capacity(len + 8);
@@ -178,6 +232,7 @@ async fn run_async(ops: Vec<Vec<String>>, root: PathBuf, tp: Arc<ThreadPool>) ->
     let mut session: Option<Arc<FileUploadSession>> = None;
     let mut sess_salt = [0u8; 32];
     let mut nsess = 0usize;
+    let mut counting: Option<Arc<Counting>> = None;
     let mut pending: Vec<tokio::task::JoinHandle<Result<FileRec, String>>> = vec![];
     let mut sess_files: Vec<usize> = vec![];
     let mut xorbs_before: HashSet<String> = HashSet::new();
@@ -192,7 +247,19 @@ async fn run_async(ops: Vec<Vec<String>>, root: PathBuf, tp: Arc<ThreadPool>) ->
                 xorbs_before = list_dir(&xorb_dir);
                 shards_before = list_dir(&shard_dir);
                 sess_files.clear();
-                match FileUploadSession::new(config(&base, sess_salt), tp.clone(), None).await {
+                // every third session goes through the public constructor (no view of the individual put calls); the others
+                // talk to the same kind of client through the counting wrapper
+                let cfg = config(&base, sess_salt);
+                counting = None;
+                let opened = if nsess % 3 == 2 {
+                    FileUploadSession::new(cfg, tp.clone(), None).await
+                } else {
+                    let Endpoint::FileSystem(ref path) = cfg.data_config.endpoint else { unreachable!() };
+                    let c = Arc::new(Counting { inner: Arc::new(LocalClient::new(path, None).unwrap()), puts: Default::default() });
+                    counting = Some(c.clone());
+                    FileUploadSession::new_with_client(cfg.clone(), tp.clone(), c).await
+                };
+                match opened {
                     Ok(s) => session = Some(s),
                     Err(e) => {
                         out.push(("obs", format!("session-open-error {:?}", e)));
@@ -287,8 +354,45 @@ async fn run_async(ops: Vec<Vec<String>>, root: PathBuf, tp: Arc<ThreadPool>) ->
                     why.push(format!("[C14] session metrics are not the sums over its files"));
                 }
                 let xbytes: u64 = new_xorbs.iter().map(|n| std::fs::metadata(xorb_dir.join(n)).map(|m| m.len()).unwrap_or(0)).sum();
-                if m.xorb_bytes_uploaded as u64 != xbytes {
-                    why.push(format!("[C14] xorb_bytes_uploaded={} but {} bytes were handed to the store", m.xorb_bytes_uploaded, xbytes));
+                match counting.take() {
+                    Some(c) => {
+                        // per call: what the session reports is what its put calls reported; a call that reported bytes wrote
+                        // exactly the file now stored under that name; every new file was written by such a call
+                        let puts = c.puts.lock().unwrap().clone();
+                        let reported: usize = puts.iter().map(|p| p.2).sum();
+                        if m.xorb_bytes_uploaded != reported {
+                            why.push(format!("[C14] xorb_bytes_uploaded={} but the {} put calls of the session transmitted {} bytes", m.xorb_bytes_uploaded, puts.len(), reported));
+                        }
+                        let mut written: HashSet<String> = HashSet::new();
+                        for (h, _handed, n) in &puts {
+                            if *n == 0 {
+                                continue;
+                            }
+                            let name = new_xorbs.iter().find(|x| x.ends_with(&h.hex()));
+                            let size = name.map(|x| std::fs::metadata(xorb_dir.join(x)).map(|m| m.len()).unwrap_or(0));
+                            if size != Some(*n as u64) {
+                                why.push(format!("[C14] put of xorb {} reported {} bytes, the stored object has {:?}", &h.hex()[..12], n, size));
+                            }
+                            if let Some(x) = name {
+                                written.insert(x.clone());
+                            }
+                        }
+                        if written.len() != new_xorbs.len() {
+                            why.push(format!("[C14] {} new objects in the store, {} of them written by a reporting put", new_xorbs.len(), written.len()));
+                        }
+                        if (reported as u64) < xbytes {
+                            why.push(format!("[C14] {} bytes stored but only {} reported", xbytes, reported));
+                        }
+                        if reported as u64 != xbytes {
+                            out.push(("note", "same-xorb-put-twice".into()));
+                        }
+                    },
+                    None => {
+                        // without the per-call view: never less than what the store holds (racing puts of one xorb both count)
+                        if (m.xorb_bytes_uploaded as u64) < xbytes {
+                            why.push(format!("[C14] xorb_bytes_uploaded={} but {} bytes were handed to the store", m.xorb_bytes_uploaded, xbytes));
+                        }
+                    },
                 }
                 let sbytes: u64 = new_shards.iter().map(|n| std::fs::metadata(shard_dir.join(n)).map(|m| m.len()).unwrap_or(0)).sum();
                 if m.shard_bytes_uploaded as u64 != sbytes && !new_shards.is_empty() {
